@@ -36,6 +36,8 @@ PROPS = {
 }
 
 REFLECT_CLASS = {("C04", 2): ["F15"], ("C04", 3): ["F22"], ("C15", 5): ["F19"]}
+# reflection details that tie a Coq definition to the code (a failure is a broken tie, not a failing input)
+REFLECT_TIE = {("C04", 6): "the wallet's signature covenants (Covenant::std_ed25519_pk_new / _legacy) no longer decode to the op lists std_ed25519_new / std_ed25519_legacy of STF/Proofs/StdCovenant.v"}
 
 ST_NET, ST_COINS, ST_COUNTS, ST_POOLS, ST_STAKES, ST_HIST, ST_TXS, ST_FEES, ST_MULT, ST_CODE, ST_HDR, ST_CONFIRM = 1, 2, 4, 8, 16, 32, 64, 128, 256, 512, 1024, 2048
 ST_ALL = 4095
@@ -51,36 +53,38 @@ def stf_prop(targets, mask, assumptions, rule_extra=""):
             "rule": STF_RULE + rule_extra, "assumptions": assumptions}
 
 PROPS.update({
-    "C01": stf_prop(["STF/Proofs/Supply.vo", "STF/Proofs/Pool.vo"], ST_COINS | ST_POOLS | ST_FEES | ST_CODE,
-                    ["partial proof: the whole-state inequality supply' <= supply + issuance is evaluated on every accepted batch and every seal of the stream (Coq function on the real states); proved for all inputs: per-transaction balance, inputs exist once, supply algebra of the coin map, settlement bounds",
+    "C01": stf_prop(["STF/Proofs/Supply.vo", "STF/Proofs/Pool.vo", "STF/Proofs/BatchSupply.vo", "STF/Proofs/SealSupply.vo", "STF/Proofs/SealLift.vo", "STF/Proofs/Witness3.vo"], ST_COINS | ST_POOLS | ST_FEES | ST_CODE,
+                    ["proved for all inputs: the whole-batch inequality (coins + fee pool + tips <= before + explicit issuance, pools untouched), the three settlement phases of a block over all pools, and the whole seal for every custom denomination; not proved: MEL/SYM/ERG across the peg, the TIP-909 subsidy and the built-in bootstrap in one inequality (their issuance is evaluated by the reflection on every real seal)",
+                     "hash-oracle assumptions HashOK (STF/Proofs/HashFacts.v) for the batch theorem; request coins as declared, distinct ids, sums below 2^128 and no saturation of issued liquidity for the seal theorems",
                      "pool sides are attributed to denominations through the key bytes"]),
-    "C03": stf_prop(["STF/Proofs/Perm.vo"], ST_COINS | ST_CODE | ST_FEES,
-                    ["partial proof: equality of coin map / fees for two accepted presentations; acceptance under permutation, rayon pool sizes and one-at-a-time application are checked on the real code for every batch of the stream",
-                     "distinct transactions have distinct hashes; markers are not output ids (hash-oracle assumptions)"]),
+    "C03": stf_prop(["STF/Proofs/Perm.vo", "STF/Proofs/PermAccept.vo", "STF/Proofs/SeqApply.vo", "STF/Proofs/Witness.vo"], ST_COINS | ST_CODE | ST_FEES,
+                    ["proved for all inputs: acceptance and the whole successor state are invariant under permutation, and equal the one-at-a-time application in any dependency order; thread schedules (rayon pools of 1 and 3 threads) are explored on the real code only",
+                     "hash-oracle assumptions HashOK (STF/Proofs/HashFacts.v), the counts invariant of C20 when TIP-906 is active, fee pool and tips below 2^128, input indices are bytes"]),
     "C04": stf_prop(["STF/Proofs/Covenant.vo", "STF/Proofs/StdCovenant.vo"], ST_CODE | ST_COINS,
                     ["Hash / Ed25519 inside covenants are oracles answered from the implementation's own evaluation",
                      "known finding F15: inputs sharing a covenant hash with an earlier input of the same transaction are not re-evaluated"]),
-    "C09": {"coq_targets": ["STF/Proofs/Total.vo"], "case_libs": ["Cases/Reflect.vo"], "streams": [("stf", ST_CODE), ("vm", VM_RESULT | VM_FUEL)],
+    "C09": {"coq_targets": ["STF/Proofs/Total.vo", "STF/Proofs/NoPanicBatch.vo"], "case_libs": ["Cases/Reflect.vo"], "streams": [("stf", ST_CODE), ("vm", VM_RESULT | VM_FUEL)],
             "rule": STF_RULE + "; vm stream: every generated program runs under catch_unwind with a step cap; C09: any panic or step-cap hit on the real code is a violation",
-            "assumptions": ["partial proof: per-site unreachability theorems; whole-history totality is checked on the real code (debug build, overflow checks on)", "allocation failure, stack depth and dependency internals are outside the model"]},
+            "assumptions": ["proved: per-site unreachability and totality of a whole batch (C09_batch_never_panics) under stated state invariants and bounds (height <= 3*10^6, mint difficulty <= 40, per-transaction input sums < 2^128); totality of seal / apply_block over histories is checked on the real code (debug build, overflow checks on)", "allocation failure, stack depth and dependency internals are outside the model"]},
     "C02": stf_prop(["STF/Proofs/Coins.vo"], ST_COINS | ST_CODE | ST_TXS,
                     ["distinct transactions have distinct hashes and dedup markers are not output coin ids (hash-oracle assumptions of the set equation)",
                      "rejection leaves the state unchanged: checked on the real code after every rejected batch (coin root, transaction set)"]),
-    "C15": stf_prop(["STF/Proofs/Pool.vo", "STF/Proofs/SealCoins.vo"], ST_COINS | ST_POOLS,
+    "C15": stf_prop(["STF/Proofs/Pool.vo", "STF/Proofs/SealCoins.vo", "STF/Proofs/SealSupply.vo", "STF/Proofs/PoolKeys.vo", "STF/Proofs/SealLift.vo", "STF/Proofs/Witness2.vo"], ST_COINS | ST_POOLS,
                     ["sums below 2^128 (the supply bound of C09) in the arithmetic theorems", "PoolKey::from_bytes result is an oracle field; its canonicality test is modelled"]),
-    "C16": stf_prop(["STF/Proofs/Pool.vo"], ST_POOLS | ST_COINS,
-                    ["the two state-level invariants (built-in pools positive, tokens <= recorded liquidity) are evaluated on every sealed state of the stream; proved: the per-operation arithmetic they rest on"]),
-    "C20": stf_prop(["STF/Proofs/Counts.vo"], ST_COUNTS | ST_COINS,
-                    ["count keys and coin keys live in the same SMT: assumed distinct (hash oracle)", "batch-level theorem assumes the coins a batch creates have fresh, distinct ids"]),
+    "C16": stf_prop(["STF/Proofs/Pool.vo", "STF/Proofs/SealSupply.vo", "STF/Proofs/SealLift.vo", "STF/Proofs/Witness2.vo"], ST_POOLS | ST_COINS,
+                    ["proved: backing of every liquidity token (coins + tokens parked in reserves <= recorded liquidity) is preserved by a whole seal; a batch cannot create an existing custom denomination outside faucets (C01_batch_supply); the positivity of the built-in reserves over histories is evaluated on every sealed state of the stream",
+                     "request coins as declared, distinct ids, sums below 2^128, no saturation of issued liquidity; faucets of test networks can mint any denomination"]),
+    "C20": stf_prop(["STF/Proofs/Counts.vo", "STF/Proofs/PermAccept.vo"], ST_COUNTS | ST_COINS,
+                    ["count keys and coin keys live in the same SMT: assumed distinct (hash oracle)", "batch-level theorem under the hash-oracle assumptions HashOK (distinct, new transaction hashes; markers are not coin ids)"]),
     "C05": stf_prop(["STF/Proofs/Fees.vo"], ST_FEES | ST_COINS | ST_CODE,
                     ["serialized length of a transaction (stdcode) is an oracle field taken from the real crate", "saturating u128 sums: exact under the 2^127 supply bound"]),
     "C06": stf_prop(["STF/Proofs/Block.vo"], ST_ALL,
                     ["the five Merkle roots are a function rf of the state (any function in the theorems; the real roots in the check)"],
                     "; C06: honest blocks must be accepted, each of 16 single-field mutations rejected (harness), apply_block replayed on the model"),
-    "C07": {"coq_targets": ["STF/Proofs/Block.vo", "Merkle/Smt.vo", "Cases/MerkleLib.vo"], "case_libs": ["Cases/Reflect.vo"],
-            "streams": [("stf", ST_HIST | ST_HDR | ST_NET), ("merkle", 3)],
-            "rule": STF_RULE + "; merkle stream: random small novasmt trees built by random insert/overwrite/delete histories with shared key prefixes; the model recomputes the root (sparse root function) and climbs every FullProof (present keys, an absent key, wrong values) with the real hash evaluations supplied as tables",
-            "assumptions": ["hash functions are abstract in the theorems; soundness assumes a collision-free hash (hypothesis, not axiom)", "the dense TIP-908 transaction tree and the stake tree's construction are checked on the real crate only"]},
+    "C07": {"coq_targets": ["STF/Proofs/Block.vo", "Merkle/Smt.vo", "Merkle/Dense.vo", "Cases/MerkleLib.vo"], "case_libs": ["Cases/Reflect.vo"],
+            "streams": [("stf", ST_HIST | ST_HDR | ST_NET), ("merkle", 7)],
+            "rule": STF_RULE + "; merkle stream: random small novasmt trees built by random insert/overwrite/delete histories with shared key prefixes; the model recomputes the root (sparse root function) and climbs every FullProof (present keys, an absent key, wrong values) with the real hash evaluations supplied as tables; dense cases: DenseMerkleTree of 0..9 (quick) / 0..33 (thorough) blocks, the model recomputes the root, checks verify_dense on every proof and a wrong leaf, and rebuilds every proof",
+            "assumptions": ["hash functions are abstract in the theorems; soundness assumes a collision-free hash (hypothesis, not axiom)", "the stake tree's construction is checked on the real crate only"]},
     "C08": stf_prop(["STF/Proofs/Block.vo"], ST_ALL,
                     ["the content-addressed store returns the trees the header roots name (from_block takes them from the same maps)"],
                     "; C08: after every restart both lineages run three further blocks and their headers are compared"),
@@ -97,28 +101,28 @@ def _stf_text(text, note, technique):
     return {"text": text, "note": note + " Model tied to the code by replaying every recorded step of the stf stream on the Gallina model (full-state comparison) and by evaluating the property's boolean reflection on the implementation's own before/after states.", "technique": technique}
 
 MANIFEST_TEXT = {
-    "C01": _stf_text("Partial proof. Proved in Coq for all inputs: every accepted non-faucet transaction is balanced per denomination (outputs + fee = inputs, or the denomination is only burnt), inputs exist and are consumed once, the coin supply moves by exactly the value of each inserted/removed coin, swaps pay within the constant-product bound less 0.5%, pro-rata shares never exceed the total. The whole-state inequality supply' <= supply + explicit issuance is a Coq function evaluated on the real before/after state of every accepted batch and every seal.",
-                     "Partial: the composition of these facts into the whole-state inequality is checked per observation, not proved.", "Coq proof (per-transaction balance, map-fold algebra, nia) + supply reflection on every real step"),
-    "C03": _stf_text("Partial proof. Proved in Coq: two accepted presentations of the same transactions yield the same coin map, fee pool and tips (folds of consistent inserts / deletes / saturating sums are permutation-invariant) and leave every other field untouched. Checked on the real code for every batch of the stream: all permutations (<= 4 members), rotations, rayon pools of 1 and 3 threads, one-at-a-time application in dependency order.",
-                     "Partial: order-independence of acceptance and real thread schedules are explored, not proved.", "Coq proof (Permutation over gmap folds) + exhaustive small-permutation and thread-pool exploration"),
+    "C01": _stf_text("Coq theorems. Batch: under the hash-oracle assumptions, for every denomination the coins, fee pool and tips after an accepted batch are at most those before plus the explicit issuance (everything a faucet declares, a transaction's own new token, the ERG outputs of a mint), pools untouched - built from per-transaction balance, inputs consumed once, and the supply algebra of the coin map. Seal: each pool phase (swaps, deposits, withdrawals) conserves reserve + coins per side and moves liquidity tokens with the recorded liquidity; over all pools and the three phases the potential 'coins + reserves against recorded liquidity' never grows; over a whole seal this holds for every custom denomination. The reflection evaluates supply' <= supply + issuance on every real batch and seal.",
+                     'Partial only for MEL/SYM/ERG at seal: the issuance of peg, TIP-909 subsidy and built-in bootstrap is evaluated per observation, not folded into one theorem.', 'Coq proof (map-fold algebra, induction over batches / pools / phases, nia) + supply reflection on every real step'),
+    "C03": _stf_text('Coq theorems: if one presentation of a set of transactions is accepted then every permutation is accepted with the same state (all twelve components), and the outcome equals applying the transactions one at a time in any order in which no transaction spends an output of itself or a later one - under the hash-oracle assumptions and the counts invariant; by symmetry rejection is order-free too. Checked on the real code for every batch of the stream: all permutations (<= 4 members), rotations, rayon pools of 1 and 3 threads, one-at-a-time application.',
+                     'Thread schedules are explored, not proved (no theorem about a sequential model can exhibit them).', 'Coq proof (Permutation over gmap folds, head/tail split of a batch, state extensionality) + exhaustive small-permutation and thread-pool exploration'),
     "C04": _stf_text("Coq theorems: in an accepted batch every input is approved by a covenant of the coin's hash run on that input's own environment, except inputs sharing their covenant hash with an earlier input of the same transaction (known finding F15, stated in the theorem); missing / undecodable / failing covenants reject; the two standard signature covenants accept iff the expected slot of tx.sigs holds a <= 64 byte signature that verifies under the named key over the signature-free hash (symbolic execution of the 8-instruction programs for every transaction and environment).",
                      "Hash and Ed25519 are oracles.", "Coq proof (induction over inputs, symbolic execution) + differential replay + independent re-evaluation of every covenant"),
-    "C09": _stf_text("Partial proof. Proved in Coq: covenant execution always terminates; totals that passed the up-front check cannot overflow; mint speed arithmetic cannot overflow for difficulty 1..64; swaps are only settled against pools with two non-empty sides and then cannot panic; guarded withdrawals cannot panic; shares of an empty total are 0; consistent counts never underflow. Checked on the real code: every call of every stream runs under catch_unwind in a debug build; any panic is a violation, and the model's explicit Panic outcomes are compared with the real ones.",
-                     "Partial: whole-history totality, allocation, stack depth and dependency internals are not proved.", "Coq proof (per-panic-site unreachability) + catch_unwind exploration with adversarial inputs"),
+    "C09": _stf_text("Coq theorems: covenant execution always terminates; checked totals cannot overflow; mint arithmetic cannot overflow; swaps / withdrawals are guarded; consistent counts never underflow; and a whole batch of arbitrary transactions never panics (state or rejection) under stated invariants and bounds (counts consistent, history below the current height with positive speeds, height <= 3*10^6, mint difficulty <= 40, input sums < 2^128). Checked on the real code: every call of every stream runs under catch_unwind in a debug build; any panic is a violation, and the model's explicit Panic outcomes are compared with the real ones.",
+                     'Partial: totality of seal / apply_block over whole histories, allocation, stack depth and dependency internals are not proved.', 'Coq proof (per-panic-site unreachability, whole-batch totality) + catch_unwind exploration with adversarial inputs'),
     "C02": _stf_text("Coq theorems: the coin map after an accepted batch is every insertion of the batch followed by the removal of every input; under the hash assumptions this is the set equation (inputs gone, each non-destroyed output present with exactly the declared value/covenant/data/height/denomination, markers present, every other coin untouched); acceptance implies well-formedness, no coin consumed twice, every input unspent before or created in the batch - for all states and batches.",
                      "Hash-oracle assumptions stated as hypotheses.", "Coq proof (gmap fold lemmas, list induction) + differential replay + reflection against an independent map-based spec"),
-    "C15": _stf_text("Coq theorems: at seal every coin that is not output 0/1 of a pool request is unchanged; a pool request has kind swap/deposit/withdraw and canonical pool data (different real denominations, canonical order and encoding); swap_many pays floor(in*other'*995/(own'*1000)) on each side, keeps reserves positive, never decreases the product; pro-rata shares never exceed the total; deposit/withdraw move reserves by exactly the amounts credited/paid.",
-                     "Arithmetic theorems assume sums below 2^128.", "Coq proof (nia over N, induction over settlement loops) + differential replay + reflection"),
-    "C16": _stf_text("Coq theorems for the operations the invariants rest on (swaps keep both reserves >= 1 and the issued liquidity, partial withdrawals keep reserves >= 1, clamped deposit shares never exceed what the pool issued); the state-level invariants themselves are evaluated by the reflection on every sealed state - partial.",
-                     "Partial: invariant preservation over whole histories is checked, not proved.", "Coq proof (per-operation arithmetic) + invariant reflection on every sealed state"),
-    "C20": _stf_text("Coq theorems: the CountsOk invariant (count entry = number of coins per covenant hash, no entry for none) is preserved by insert_coin (fresh key or same covenant hash), by remove_coin (which never underflows), established by the TIP-906 activation fold, and preserved by a whole batch whose created coins have fresh ids; the reflection regroups the real coin entries after every step.",
-                     "Count keys assumed distinct from coin keys.", "Coq proof (map_fold lemmas, induction) + differential replay + reflection"),
+    "C15": _stf_text("Coq theorems: at seal every coin that is not output 0/1 of a pool request is unchanged; a pool request has kind swap/deposit/withdraw and canonical pool data; every pool named by a block's requests is settled exactly once per phase (the key list has no duplicates); swap_many pays floor(in*other'*995/(own'*1000)) on each side, keeps reserves positive, never decreases the product; pro-rata shares never exceed the total; at the level of the state the reserves of every pool move by what is taken from / paid into the request coins (never less), over all pools and the three phases of a block.",
+                     'Arithmetic theorems assume sums below 2^128; request coins as declared (C02).', 'Coq proof (nia over N, induction over settlement loops and pools, sortedness of the key list) + differential replay + reflection'),
+    "C16": _stf_text("Coq theorems: the per-operation arithmetic (swaps keep both reserves >= 1 and the issued liquidity, partial withdrawals keep reserves >= 1, clamped deposit shares never exceed what the pool issued) and, at the level of the state, that the backing of every liquidity token - tokens in coins plus tokens parked in other pools' reserves against the liquidity recorded - is preserved by each phase, by the three phases over all pools, and by a whole seal; the reflection evaluates both invariants on every sealed state.",
+                     'The positivity of built-in reserves over whole histories is checked per observation; faucets of test networks can mint any denomination.', 'Coq proof (potential function over pools and phases) + invariant reflection on every sealed state'),
+    "C20": _stf_text('Coq theorems: the CountsOk invariant (count entry = number of coins per covenant hash, no entry for none) is preserved by insert_coin (fresh key or same covenant hash), by remove_coin (which never underflows), established by the TIP-906 activation fold, and preserved by a whole accepted batch under the hash-oracle assumptions alone; the reflection regroups the real coin entries after every step.',
+                     'Count keys assumed distinct from coin keys.', 'Coq proof (map_fold lemmas, induction) + differential replay + reflection'),
     "C05": _stf_text("Coq theorems over the executable model of apply_tx_batch / seal: weight and minimum-fee formulas, every member of an accepted batch pays at least its minimum fee, fee pool and tips move by exactly the minimum-fee parts and remainders, the proposer reward coin is fee_pool/65536 + tips and both drop by exactly that - for all states, batches and multipliers.",
                      "The serialized size is an oracle field.", "Coq proof (induction over the batch) + differential replay + reflection"),
     "C06": _stf_text("Coq theorems: apply_block succeeds iff the transactions apply to the successor state, the result seals and the recomputed header equals the declared one; the returned state has that header; honest blocks are accepted; a differing header is rejected - for all states, blocks and root functions.",
                      "Header equality is record equality over 11 fields; roots are an arbitrary function of the state.", "Coq proof (unfolding/case analysis) + differential replay + mutation harness"),
-    "C07": _stf_text("Coq theorems. State level: the header records the state's scalars and the five roots, the successor state is one higher on the same network with the parent header stored at the parent's height, the child's header points at the parent's hash. Merkle level (novasmt sparse tree over an abstract hash, no size bound): the root is a function of the contents alone, every present or absent key has a proof that verifies, and for a collision-free hash a verifying proof determines the value and any differing entry changes the root. Tied to novasmt by recomputing roots and proofs of small real trees with tables of the real hash evaluations, and by checking membership/absence proofs, order-independence and the dense TIP-908 tree on every sealed state.",
-                     "Soundness assumes a collision-free hash (hypothesis); the dense transaction tree is explored, not proved.", "Coq proof (depth induction over an abstract hash; state-level unfolding) + differential recomputation of real novasmt roots/proofs"),
+    "C07": _stf_text("Coq theorems. State level: the header records the state's scalars and the five roots, the successor state is one higher on the same network with the parent header stored at the parent's height, the child's header points at the parent's hash. Merkle level (novasmt sparse tree over an abstract hash, no size bound): the root is a function of the contents alone, every present or absent key has a proof that verifies, and for a collision-free hash a verifying proof determines the value and any differing entry changes the root. The dense tree of novasmt::dense (transactions under TIP-908) is reduced to the same tree: its root is the root of the perfect tree over the blocks, every block has a proof verify_dense accepts, an accepted proof determines the block. Tied to novasmt by recomputing roots and proofs of small real sparse and dense trees with tables of the real hash evaluations, and by checking membership/absence proofs and order-independence on every sealed state.",
+                     "Soundness assumes a collision-free hash (hypothesis).", "Coq proof (depth induction over an abstract hash; state-level unfolding) + differential recomputation of real novasmt roots/proofs"),
     "C08": _stf_text("Coq theorem: from_block(to_block s) = s as states (Leibniz equality, hence identical behaviour under every continuation) whenever no tips are pending, and the refutation for pending tips (known finding F16); the harness runs three further blocks on both lineages after every restart.",
                      "The store is modelled as returning the same maps.", "Coq proof (record equality) + lock-step continuation check"),
     "C13": _stf_text("Coq theorems: a stake is registered iff the five stated conditions hold; the stake set after a batch is exactly old plus registered; malformed stake transactions reject the batch; an accepted batch spends no output of a staked transaction (including same-batch stakes); at each block boundary exactly the stakes with end >= new epoch survive; sealing keeps the stakes.",
